@@ -118,6 +118,39 @@ class ConnProxy:
         return getattr(self._real, item)
 
 
+class _fs_refuses:
+    """while active, the file system refuses to remove ('remove') or to create / overwrite ('open') private-key files"""
+
+    def __init__(self, what):
+        self.what = what
+
+    def __enter__(self):
+        import ndn.security.tpm.tpm_file as tf
+        self.tf = tf
+        if self.what == 'remove':
+            self.real = os.remove
+
+            def remove(path, *a, **kw):
+                if str(os.fsdecode(path)).endswith('.privkey'):
+                    raise PermissionError(13, 'Permission denied (injected by the harness)', os.fsdecode(path))
+                return self.real(path, *a, **kw)
+            os.remove = remove
+        else:
+            def open_(path, mode='r', *a, **kw):
+                if str(os.fsdecode(path)).endswith('.privkey') and any(c in mode for c in 'wax+'):
+                    raise OSError(28, 'No space left on device (injected by the harness)', os.fsdecode(path))
+                return open(path, mode, *a, **kw)
+            tf.open = open_
+        return self
+
+    def __exit__(self, *exc):
+        if self.what == 'remove':
+            os.remove = self.real
+        else:
+            del self.tf.open
+        return False
+
+
 class World:
     def __init__(self, root):
         self.root = root
@@ -134,12 +167,18 @@ class World:
         self.tpm = TpmFile(self.tpm_dir)
         real_save, real_delete = self.tpm.save_key, self.tpm.delete_key
 
+        # a private-key-store failure is injected BELOW TpmFile (the file system refuses), so that TpmFile's own handling of
+        # the error is part of what is exercised: a failure it swallows is a deletion / save that did not happen
         def save_key(key_name, key_der):
-            self.step('tpm', 'save_key')
+            if self.due('tpm', 'save_key'):
+                with _fs_refuses('open'):
+                    return real_save(key_name, key_der)
             return real_save(key_name, key_der)
 
         def delete_key(key_name):
-            self.step('tpm', 'delete_key')
+            if self.due('tpm', 'delete_key'):
+                with _fs_refuses('remove'):
+                    return real_delete(key_name)
             return real_delete(key_name)
         self.tpm.save_key, self.tpm.delete_key = save_key, delete_key
         self.kc = KeychainSqlite3(self.db, self.tpm)
@@ -157,6 +196,17 @@ class World:
                 self.kc.shutdown()
         except Exception:
             pass
+
+    def due(self, layer, what):
+        """counts a storage step; True when it is the planned failing one (the caller then makes the file system refuse)"""
+        if self.plan is None:
+            return False
+        n = self.count
+        self.count += 1
+        if n == self.plan and self.fired is None:
+            self.fired = 'tpm-' + what.replace('_', '-')
+            return True
+        return False
 
     def step(self, layer, what):
         if self.plan is None:
